@@ -35,6 +35,7 @@ OUTSIDE = ["histories longer than K", "real process pools"]
 
 NETWORKS = [
     (("aab", "abc", "cd", "d"), "", "diag-shared"),
+    (("abx", "bcx", "cdx", "dx"), "a", "hyper-inner"),
     (("ab", "bc", "cd", "da"), "", "ring4"),
     (("ab", "bc", "cd", "de"), "ae", "chain4-out2"),
     (("abx", "bcx", "cdx"), "ax", "hyper-batch"),
@@ -55,7 +56,7 @@ def bounds(tier):
 
 
 def items(tier, seed):
-    nets = NETWORKS[:7] if tier == "quick" else NETWORKS
+    nets = NETWORKS[:8] if tier == "quick" else NETWORKS
     its = []
     for ni, (inputs, output, name) in enumerate(nets):
         for init in ("greedy", "caterpillar"):
